@@ -41,9 +41,10 @@ def ref_unquote(b):
     return bytes(out)
 
 
-def ref_decode_qs(qs):
-    """Reference application/x-www-form-urlencoded decoder of the property text.
-    qs: WSGI native string (latin-1).  Returns list of [name, value] or Err(UnicodeDecodeError)."""
+def ref_decode_qs(qs, cs="utf-8"):
+    """Reference application/x-www-form-urlencoded decoder of the property text (octets are UTF-8, or charset cs
+    for a query submitted in cs).  qs: WSGI native string (latin-1).  Returns list of [name, value] or
+    Err(UnicodeDecodeError)."""
     raw = qs.encode("latin-1")
     out = []
     for field in re.split(b"[&;]", raw):
@@ -51,8 +52,8 @@ def ref_decode_qs(qs):
             continue
         name, _, value = field.partition(b"=")
         try:
-            out.append([ref_unquote(name.replace(b"+", b" ")).decode("utf-8"),
-                        ref_unquote(value.replace(b"+", b" ")).decode("utf-8")])
+            out.append([ref_unquote(name.replace(b"+", b" ")).decode(cs),
+                        ref_unquote(value.replace(b"+", b" ")).decode(cs)])
         except UnicodeDecodeError:
             return UDE
     return out
@@ -757,6 +758,29 @@ def oracle_decode_query(pairs, cs, raw, explicit):
         return "decode:form", "decode(%r) of urlencoded body %r gives POST %r, submitted %r" % (cs, qs, post, want)
     if params != want + want or charset != "UTF-8":
         return "decode:params", "decode(%r): params %r / charset %r" % (cs, params, charset)
+    return None
+
+
+def oracle_decode_raw(qs, cs):
+    """request.decode(cs) on an arbitrary query string and the same string as urlencoded body: whenever the
+    reference decoder reads it in cs as pairs (all names non-empty), the decoded request shows those pairs —
+    with or without '=' in it."""
+    from webob import Request
+    want = ref_decode_qs(qs, cs)
+    if isinstance(want, Err) or any(not k for k, _ in want):
+        return None
+    try:
+        body = qs.encode("latin-1")
+        req = Request.blank("/", environ={"QUERY_STRING": qs}, POST=body,
+                            content_type="application/x-www-form-urlencoded; charset=%s" % cs)
+        d = req.decode(cs)
+        get = catch(lambda: [list(kv) for kv in d.GET.items()])
+        post = catch(lambda: [list(kv) for kv in d.POST.items()])
+    except Exception as e:  # noqa
+        get = post = Err(type(e).__name__)
+    if get != want or post != want:
+        key = "decode:bare-names-not-transcoded" if "=" not in qs else ("decode:query" if get != want else "decode:form")
+        return key, "decode(%r) of query / urlencoded body %r gives GET %r POST %r, submitted %r" % (cs, qs, get, post, want)
     return None
 
 
@@ -1532,51 +1556,83 @@ def oracle_decode_cfg(cs, pairs, errors, late, where):
     return None
 
 
-BAD_VALUES = ["surrogate", "none-default", "int", "bytes", "int-key"]
+BAD_VALUES = ["surrogate", "none", "int", "bytes", "int-key", "surrogate-key"]
+BAD_METHODS = ["add", "setitem", "setdefault", "setdefault-nodefault", "update", "update-kw", "extend", "extend-dict"]
 
 
-def oracle_outside_get(qs0, kind, key):
-    """Outside the text domain of request.GET (the theorems assume text): a value that cannot be written to
-    QUERY_STRING is refused by UnicodeEncodeError / AttributeError / TypeError, and the refusal leaves everything as
-    it was: the view equals what it showed before the write and what a fresh Request over the environ shows,
-    QUERY_STRING is untouched, and a following good write succeeds and is written back."""
+def _bad_pair(kind, key):
+    return {"surrogate": (key, "x\ud800y"), "none": (key, None), "int": (key, 5), "bytes": (key, b"x"),
+            "int-key": (5, "x"), "surrogate-key": (key + "\udc80", "x")}[kind]
+
+
+def _refused_write(g, method, kind, key):
+    """One mutation of the GetDict that cannot be written to QUERY_STRING; None if the combination does not exist."""
+    k, v = _bad_pair(kind, key)
+    if method == "add":
+        return catch(g.add, k, v)
+    if method == "setitem":
+        return catch(g.__setitem__, k, v)
+    if method == "setdefault":
+        return None if k in g else catch(g.setdefault, k, v)
+    if method == "setdefault-nodefault":        # the None default of the method itself
+        return None if (kind != "none" or k in g) else catch(g.setdefault, k)
+    if method == "update":          # (update is item-by-item __setitem__: a good item before the bad one would land)
+        return catch(g.update, [(k, v)])
+    if method == "update-kw":
+        return catch(lambda: g.update(**{k: v})) if isinstance(k, str) else None
+    if method == "extend":
+        return catch(g.extend, [("fine", "1"), (k, v), ("fine", "2")])
+    if method == "extend-dict":
+        return catch(g.extend, {k: v})
+    raise ValueError(method)
+
+
+def oracle_outside_get(qs0, refusals, good):
+    """Outside the text domain of request.GET (the theorems assume text): k = 1..3 CONSECUTIVE writes that cannot go
+    to QUERY_STRING (None / int / bytes / lone surrogate / non-str key, through add / __setitem__ / setdefault /
+    update / extend), with no successful write between them, optionally followed by a good write.  After EVERY step:
+    the refusal is UnicodeEncodeError / AttributeError / TypeError, the held view, request.GET and a fresh Request over
+    the environ all show what was there before, QUERY_STRING is untouched; the final good write lands."""
     req, env = new_request(qs0)
     before = ref_decode_qs(qs0)
     if isinstance(before, Err):
         return None
     g = req.GET
-    if kind == "surrogate":
-        r = catch(g.add, key, "x\ud800y")
-    elif kind == "none-default":
-        if key in g:
-            return None
-        r = catch(g.setdefault, key)
-    elif kind == "int":
-        r = catch(g.add, key, 5)
-    elif kind == "bytes":
-        r = catch(g.add, key, b"x")
-    else:
-        key = 5
-        r = catch(g.add, key, "x")
-    what = "request.GET %s under key %r on %r" % (kind, key, qs0)
-    if not isinstance(r, Err) or r.name not in ("UnicodeEncodeError", "AttributeError", "TypeError"):
-        return "outside:get-bad-value-not-refused", "%s: returned %r" % (what, r)
-    if env["QUERY_STRING"] != qs0:
-        return "outside:query-string-half-written", "%s: QUERY_STRING became %r" % (what, env["QUERY_STRING"])
-    held = [list(kv) for kv in g.items()]
-    now = catch(lambda: [list(kv) for kv in req.GET.items()])
-    fresh = impl_get(env["QUERY_STRING"])
-    if held != before or now != before or fresh != before:
-        return "outside:refused-value-stays-in-view", (
-            "%s: after the refusal (%r) the GetDict shows %r, request.GET %r, a fresh Request %r; before the write: %r"
-            % (what, r, held, now, fresh, before))
-    r2 = catch(g.add, "ok", "1")
-    want = before + [["ok", "1"]]
-    items = catch(lambda: [list(kv) for kv in req.GET.items()])
-    fresh = impl_get(env["QUERY_STRING"])
-    if isinstance(r2, Err) or items != want or fresh != want:
-        return "outside:cannot-recover", ("%s: a following good write returned %r, GET shows %r, QUERY_STRING %r parses "
-                                          "to %r, expected %r" % (what, r2, items, env["QUERY_STRING"], fresh, want))
+    cur_qs = qs0
+    for n, (method, kind, key) in enumerate(refusals):
+        # d[k] = v (and update, which is d[k] = v per item) is "delete every pair under k, then append": the delete is
+        # a successful write of its own, so on an EXISTING key the old pairs are gone before the append is refused.
+        # What must hold there is coherence (no refused pair in any view, QUERY_STRING = the view), not "unchanged".
+        k = _bad_pair(kind, key)[0]
+        deletes = method in ("setitem", "update", "update-kw") and any(kv[0] == k for kv in before)
+        r = _refused_write(g, method, kind, key)
+        if r is None:
+            continue
+        what = "refused write #%d %s(%s) under key %r on %r" % (n + 1, method, kind, key, qs0)
+        if not isinstance(r, Err) or r.name not in ("UnicodeEncodeError", "AttributeError", "TypeError"):
+            return "outside:get-bad-value-not-refused", "%s: returned %r" % (what, r)
+        if deletes:
+            before = [kv for kv in before if kv[0] != k]
+            cur_qs = env["QUERY_STRING"]
+        if env["QUERY_STRING"] != cur_qs:
+            return "outside:query-string-half-written", "%s: QUERY_STRING became %r" % (what, env["QUERY_STRING"])
+        held = [list(kv) for kv in g.items()]
+        now = catch(lambda: [list(kv) for kv in req.GET.items()])
+        params = catch(lambda: [list(kv) for kv in req.params.items()])
+        fresh = impl_get(env["QUERY_STRING"])
+        if held != before or now != before or params != before or fresh != before:
+            return "outside:refused-value-stays-in-view", (
+                "%s: after the refusal (%r) the GetDict shows %r, request.GET %r, params %r, a fresh Request %r; before "
+                "the write: %r" % (what, r, held, now, params, fresh, before))
+    if good:
+        r2 = catch(g.add, "ok", "1")
+        want = before + [["ok", "1"]]
+        items = catch(lambda: [list(kv) for kv in req.GET.items()])
+        fresh = impl_get(env["QUERY_STRING"])
+        if isinstance(r2, Err) or items != want or fresh != want:
+            return "outside:cannot-recover", ("after %r on %r: a following good write returned %r, GET shows %r, "
+                                              "QUERY_STRING %r parses to %r, expected %r"
+                                              % (refusals, qs0, r2, items, env["QUERY_STRING"], fresh, want))
     return None
 
 
@@ -1746,6 +1802,11 @@ ORACLE_ONLY = [
 ]
 
 
+def hash_small(t):
+    """A process-independent small hash (PYTHONHASHSEED must not matter)."""
+    return sum(ord(c) for x in t for c in str(x))
+
+
 def _fail(ctx, key, what, case, found=True, source="oracle"):
     """Report a failure; one defect = one key, whichever oracle met it: a failure that is the nested-multipart error
     of an upload whose filename mimetypes reads as a data: URL of type multipart/* is filed under that defect."""
@@ -1809,7 +1870,9 @@ def run(ctx):
         cases.append((cstr(q), impl_transcode("latin-1", q), {"kind": "query", "qs": q}))
     bad = ctx.corr("transcode_query", IMPORTS, "v_transcode_latin1", cases, in_type="str")
     for i in bad[:4]:
-        _disagree(ctx, "transcode_query", cases[i][2], oracle_query(cases[i][2]["qs"]))
+        q = cases[i][2]["qs"]
+        _disagree(ctx, "transcode_query", {"kind": "decode-raw", "qs": q, "cs": "latin-1"},
+                  oracle_decode_raw(q, "latin-1") or oracle_query(q))
 
     # Transcoder(charset, errors).transcode_query: `errors` does not reach the query path (parse_qsl_text decodes
     # strictly), so ONE model function answers for every handler
@@ -1821,7 +1884,9 @@ def run(ctx):
             cases.append((cstr(q), catch(Transcoder("ascii", errs).transcode_query, q), {"kind": "query", "qs": q}))
         bad = ctx.corr("transcode_query-ascii-" + errs, IMPORTS, "v_transcode_ascii", cases, in_type="str")
         for i in bad[:3]:
-            _disagree(ctx, "transcode_query-ascii-" + errs, cases[i][2], oracle_query(cases[i][2]["qs"]))
+            q = cases[i][2]["qs"]
+            _disagree(ctx, "transcode_query-ascii-" + errs, {"kind": "decode-raw", "qs": q, "cs": "ascii"},
+                      oracle_decode_raw(q, "ascii") or oracle_query(q))
 
     # ------------------------------------------------------------------ correspondence: request.GET histories
     cases = []
@@ -2024,11 +2089,26 @@ def run(ctx):
     m = ctx.scale(600, 6000)
     cnt = 0
     for _ in range(m):
-        qs0, kind, key = rand_valid_qs(rng), rng.choice(BAD_VALUES), rand_text(rng)
+        qs0 = rand_valid_qs(rng)
+        refusals = [(rng.choice(BAD_METHODS), rng.choice(BAD_VALUES), rand_text(rng)) for _ in range(rng.randrange(1, 4))]
+        good = rng.random() < 0.7
         cnt += 1
-        r = oracle_outside_get(qs0, kind, key)
+        r = oracle_outside_get(qs0, refusals, good)
         if r:
-            _fail(ctx, r[0], r[1], {"kind": "outside-get", "qs0": qs0, "bad": kind, "key": key}, True, "outside-domain")
+            _fail(ctx, r[0], r[1], {"kind": "outside-get", "qs0": qs0, "refusals": refusals, "good": good}, True,
+                  "outside-domain")
+    # every pair / triple of refusal kinds in a row on a small query (methods rotate)
+    kinds2 = [(m, k) for m in BAD_METHODS for k in BAD_VALUES]
+    for a, b in itertools.product(kinds2, repeat=2):
+        if (hash_small(a) + hash_small(b)) % ctx.scale(6, 1) and a != b:
+            continue
+        for good in (True, False):
+            cnt += 1
+            refusals = [(a[0], a[1], "g"), (b[0], b[1], "h")]
+            r = oracle_outside_get("a=1&b=%C3%A9", refusals, good)
+            if r:
+                _fail(ctx, r[0], r[1], {"kind": "outside-get", "qs0": "a=1&b=%C3%A9", "refusals": refusals, "good": good},
+                      True, "outside-domain")
     misc = [{"t": "qs-non-wsgi", "qs": q} for q in ("a=€", "\u0100", "a=1&b=\U0001f600", "%41=\u20ac;x")] + \
         [{"t": "refusals", "fields": []}]
     for _ in range(ctx.scale(300, 3000)):
@@ -2112,6 +2192,16 @@ def run(ctx):
             if r:
                 _fail(ctx, r[0], r[1], {"kind": "decode-multipart", "fields": fields, "cs": cs, "ctform": ctform}, True,
                          "decode")
+    # arbitrary query strings read in cs (with and without '=', bare names, ';', malformed escapes)
+    alpha = ["k", "%E9", "%e9", "&", ";", "=", "+", "x", "%41", "%zz", "\xe9", "%82%A0", "%"]
+    for n in range(1, ctx.scale(3, 4) + 1):
+        for t in itertools.product(alpha, repeat=n):
+            qs = "".join(t)
+            for cs in ("latin-1", "cp1252") + (("shift_jis",) if "%82%A0" in qs else ()):
+                cnt += 1
+                r = oracle_decode_raw(qs, cs)
+                if r:
+                    _fail(ctx, r[0], r[1], {"kind": "decode-raw", "qs": qs, "cs": cs}, True, "decode")
     ctx.oracle_count("decode", cnt, cnt)
 
     ctx.extra["rule"] = (
@@ -2179,9 +2269,11 @@ def replay(ctx, path):
     elif kind == "decode-cfg":
         r = oracle_decode_cfg(case["cs"], [tuple(p) for p in case["pairs"]], case["errors"], case["late"], case["where"])
     elif kind == "outside-get":
-        r = oracle_outside_get(case["qs0"], case["bad"], case["key"])
+        r = oracle_outside_get(case["qs0"], [tuple(x) for x in case["refusals"]], case["good"])
     elif kind == "outside-misc":
         r = oracle_outside_misc(case)
+    elif kind == "decode-raw":
+        r = oracle_decode_raw(case["qs"], case["cs"])
     elif kind == "decode-query":
         r = oracle_decode_query([tuple(p) for p in case["pairs"]], case["cs"], case["raw"], True)
     elif kind == "decode-multipart":
